@@ -29,6 +29,9 @@ Language inclusion of the regex and the regex engine itself are not decided.
 Round 4: user callables run on a pattern sit in a try that tolerates Exception; the base insert
 stores a chunk for every recorded position; the placeholder of a pattern chunk is never empty;
 constructor-derived attributes (a marker's prepared pattern) read as their definition.
+
+Round 5: methods of the Any placeholder are read through their definitions; the Int._compile
+codec rule (C05 a, b) is included because a fixed Int is rendered by the field's own pack.
 """
 import ast
 
